@@ -16,7 +16,9 @@ PROP = {'level': 'proof',
  'exhaustive': True,
  'rule': 'Exhaustive: every ArrayConsumer history over {next, next_back, clone-keep-clone, clone-drop-clone} '
          'up to depth 6 (quick) / 8 (thorough) ending in drop / mem::forget / assert_is_empty, lengths '
-         '0..=4, from new() and (depth 4) from empty(); every ArrayBuilder history as in C11; '
+         '0..=4, from new() and (depth 4) from empty(); every ArrayBuilder history as in C11 (incl. '
+         'Clone::clone_from between two builders of every pair of fill levels: the old elements of the '
+         'target are dropped exactly once, the target owns fresh clones of the source); '
          'map_!/from_fn_! over drop-logging elements, lengths 0..=4, each early exit at each index; '
          'destructure! on tuples (1..16 fields), tuple/braced/packed/generic structs with E, u32, (), (E,E), '
          '[E;2], nested-struct fields under all-bind / all-wild / alternating / first-wild / last-wild '
